@@ -97,6 +97,43 @@ def enabled (c : Levels) (pkg : Option Nat) (lvl : Nat) : Bool :=
 def threshold (c : Levels) (p : Nat) : Nat :=
   if c.active then (lookupPkg c.pkgs p).getD c.glob else c.glob
 
+/-! ## The levels in force when the logger starts: `-log` / `-plog` flags, `ParseLevel`, `Severity.Name` -/
+
+/-- The switch of `ParseLevel` on the (already lower-cased) name; 0 for any other name. -/
+def lookupLevel (t : String) : Nat := (PB.Gen.Log.levelNames.lookup t).getD 0
+
+/-- `ParseLevel(name)` = that switch on `strings.ToLower(name)`. -/
+def parseLevel (s : String) : Nat := lookupLevel s.toLower
+
+/-- `Severity(n).Name()`. -/
+def severityName (n : Nat) : String :=
+  match PB.Gen.Log.severities.find? (·.2 == n) with
+  | some c => (PB.Gen.Log.severityNames.lookup c.1).getD PB.Gen.Log.severityNameDefault
+  | none => PB.Gen.Log.severityNameDefault
+
+/-- `newPkgLevels[k] = v` (a Go map: one entry per key). -/
+def setPkg {κ : Type} [BEq κ] (m : List (κ × Nat)) (k : κ) (v : Nat) : List (κ × Nat) :=
+  (k, v) :: m.filter (fun x => !(x.1 == k))
+
+/-- The loop of `Start()` over the pairs of `-plog` (each pair already split at "="): a pair that is not
+    `name=level` with a known level name ends the loop ("ignoring"); what was read before it is kept, what
+    follows it is not read. -/
+def parsePairs : List (List String) → List (String × Nat) → List (String × Nat)
+  | [], acc => acc
+  | [k, v] :: rest, acc => if parseLevel v = 0 then acc else parsePairs rest (setPkg acc k (parseLevel v))
+  | _ :: _, acc => acc
+
+/-- `Start()`: the levels in force afterwards, given the levels set before (`SetLogLevel`/`SetPkgLevels`
+    calls made before Start) and the two flags. An unknown `-log` name falls back to info; a non-empty
+    `-plog` REPLACES the package levels and activates them (also when nothing of it could be read).
+    `pkgId`: the harness' numbering of package names. -/
+def startLevels (pkgId : String → Nat) (pre : Levels) (logFlag plogFlag : String) : Levels :=
+  let g := if logFlag = "" then pre.glob
+           else if parseLevel logFlag = 0 then PB.Gen.Log.infoLevel else parseLevel logFlag
+  if plogFlag = "" then { pre with glob := g }
+  else { glob := g, active := true,
+         pkgs := (parsePairs ((plogFlag.splitOn ",").map (·.splitOn "=")) []).map fun kv => (pkgId kv.1, kv.2) }
+
 /-! ## Adapter output -/
 
 /-- One `adapter.Write(line, duplicates)` call. -/
